@@ -180,6 +180,9 @@ type scriptOps struct {
 	curTl            string                               // timeline the honest server answers from
 	clientCalls      []string                             // "<client> <op> <file>" (concurrent replays)
 	servedHeads      []int                                // sizes of the good heads handed to clients in lookup responses
+	acceptedHeads    []sumworld.HeadLabel                 // signed heads of the lookup responses of successful lookups (clients of one scriptOps share the configuration)
+	envScript        map[int][]sumworld.HeadLabel         // sequential replays: heads another honest process stores just before the n-th WriteConfig call
+	nWriteConfig     int
 }
 
 func newScriptOps(w *sumworld.World, cfg0 sumworld.HeadLabel, served map[string]int) *scriptOps {
@@ -423,6 +426,12 @@ func (o *scriptOps) WriteConfig(file string, old, new []byte) error {
 		o.viol = append(o.viol, core.Violation{Sig: "c01:config-key-written", What: "WriteConfig on file " + file})
 		return fmt.Errorf("unknown config %s", file)
 	}
+	for _, hl := range o.envScript[o.nWriteConfig] {
+		// another honest process gets in first (EnvStore in the specification)
+		o.cfg = o.w.Head(hl)
+		o.cfgHist = append(o.cfgHist, o.w.ClassifyHead(o.cfg))
+	}
+	o.nWriteConfig++
 	if !bytes.Equal(old, o.cfg) {
 		o.log(opCall{Op: "WriteConfig", File: "latest", Truth: "conflict"})
 		if o.ev != nil {
@@ -660,6 +669,24 @@ func checkLookupResult(o *scriptOps, w *sumworld.World, k int, lines []string, e
 	cfgNow := append([]byte(nil), o.cfg...)
 	o.mu.Unlock()
 	before := w.ClassifyHead(cfgBefore)
+	// C13: two mutually inconsistent signed trees are never both accepted - across restarts and across clients that share the
+	// configuration.  A lookup that succeeds has accepted the signed head its response carried.
+	if err == nil && haveServed && served.Kind == "good" {
+		o.mu.Lock()
+		for _, a := range o.acceptedHeads {
+			if !(w.PrefixOf(a, served) || w.PrefixOf(served, a)) {
+				vs = append(vs, core.Violation{Sig: "c13:two-timelines-accepted", What: fmt.Sprintf("Lookup(%s,%s) succeeded with the signed head %v although an earlier lookup had succeeded with %v, which is inconsistent with it (stored head before the lookup: %v)", path, vers, served, a, before)})
+				break
+			}
+		}
+		o.acceptedHeads = append(o.acceptedHeads, served)
+		o.mu.Unlock()
+		// ... nor is it inconsistent with what the shared configuration holds when the lookup returns (another process may
+		// have stored that head: then this lookup had to fail)
+		if now := w.ClassifyHead(cfgNow); now.Kind == "good" && !(w.PrefixOf(now, served) || w.PrefixOf(served, now)) {
+			vs = append(vs, core.Violation{Sig: "c13:two-timelines-accepted", What: fmt.Sprintf("Lookup(%s,%s) succeeded with the signed head %v while the shared configuration holds %v, which is inconsistent with it", path, vers, served, now)})
+		}
+	}
 	if haveServed && served.Kind == "good" && before.Kind == "good" && !(w.PrefixOf(before, served) || w.PrefixOf(served, before)) {
 		if err == nil {
 			vs = append(vs, core.Violation{Sig: "c13:fork-accepted", What: fmt.Sprintf("Lookup(%s,%s) succeeded although the server presented %v, inconsistent with the stored head %v", path, vers, served, before)})
@@ -734,8 +761,16 @@ func replayBehaviour(c *core.Case, in *behaviourIn) ([]core.Violation, bool) {
 		ops.fillDiskWithFullTiles()
 	}
 	nfault := 0
+	nwc := 0
 	for _, h := range in.Ops {
 		switch h.Op {
+		case "EnvStore":
+			if ops.envScript == nil {
+				ops.envScript = map[int][]sumworld.HeadLabel{}
+			}
+			ops.envScript[nwc] = append(ops.envScript[nwc], *h.Head)
+		case "WriteConfig":
+			nwc++
 		case "ReadRemote":
 			ops.remote[h.Path.String()] = append(ops.remote[h.Path.String()], scripted{fault: h.Fault, resp: h.Data, lab: h.Lab})
 		case "ReadCache":
